@@ -238,6 +238,12 @@ func newWorldWithState(b *runner.Batch, n int, set world.Set, containers int, sn
 				}
 				b.Hit("netmap-history-grown-shortly-before-the-upgrade")
 			}
+			// after the last tick (the oldest layouts keep no state in the published maps) one candidate goes into
+			// Maintenance: the state stored beside a legacy candidate is data too (seeded change C16-10: the candidate
+			// conversion sharing a helper with the snapshot conversion, which sets Online)
+			if err := ok(w.Invoke(A, w.H("netmap"), "updateStateIR", int64(3), world.Key(b.Seed, b.Index, "c16-node", 1).PublicKey().Bytes()), "updateStateIR"); err != nil {
+				return err
+			}
 			return ok(w.Invoke(A, w.H("netmap"), "setConfig", []byte{1}, []byte("MaxObjectSize"), []byte{0, 0, 1}), "setConfig")
 		},
 		func() error {
